@@ -911,6 +911,7 @@ type Script struct {
 	seenSym map[string]bool
 	sorts   map[string]bool
 	refs    map[int]int
+	needSpec bool
 }
 
 func NewScript() *Script {
@@ -986,7 +987,9 @@ func (s *Script) emit(t *Term) {
 		}
 		return
 	case "app":
-		if !s.seenSym[t.Name] {
+		if strings.HasPrefix(t.Name, "spec.") {
+			s.needSpec = true
+		} else if !s.seenSym[t.Name] {
 			s.seenSym[t.Name] = true
 			s.declSort(t.Sort)
 			var as []string
@@ -1016,7 +1019,8 @@ func (s *Script) Header() string {
 // Interleaved returns declarations and definitions in a valid order (decls first is valid
 // because definitions only reference declared symbols and earlier definitions).
 func (s *Script) Lines() []string {
-	out := append([]string{}, s.decls...)
+	var out []string
+	out = append(out, s.decls...)
 	return append(out, s.defs...)
 }
 
